@@ -94,11 +94,17 @@ theorem plainGood_class {t : Tok} {s : List Tok} {f d v} (h : tk t = .hk .class)
     fun ha => absurd ha (ne_at_of_tk h (by simp))⟩, isNL_false_of_tk h (by simp) (by simp) (by simp)⟩ <;> (rw [h]; simp)
 grind_pattern plainGood_class => PlainGood t s, tk t, parseClass f d s, some v
 
-theorem plainGood_case {t : Tok} {s : List Tok} {f v} (h : tk t = .hk .case) (hd : parsePatterns f s = some v) :
-    PlainGood t s := by
-  refine ⟨⟨fun hl => absurd hl (ne_lambda_of_tk h (by simp)), ?_, ?_, fun _ => ⟨f, by simp [hd]⟩, ?_,
+theorem plainGood_case_if {t : Tok} {s r : List Tok} {f p} (h : tk t = .hk .case)
+    (hd : parsePatterns f s = some (p, .kw .if :: r)) : PlainGood t s := by
+  refine ⟨⟨fun hl => absurd hl (ne_lambda_of_tk h (by simp)), ?_, ?_, fun _ => ⟨f, p, r, Or.inl hd⟩, ?_,
     fun ha => absurd ha (ne_at_of_tk h (by simp))⟩, isNL_false_of_tk h (by simp) (by simp) (by simp)⟩ <;> (rw [h]; simp)
-grind_pattern plainGood_case => PlainGood t s, tk t, parsePatterns f s, some v
+grind_pattern plainGood_case_if => PlainGood t s, tk t, parsePatterns f s, some (p, Tok.kw Kw.if :: r)
+
+theorem plainGood_case_colon {t : Tok} {s r : List Tok} {f p} (h : tk t = .hk .case)
+    (hd : parsePatterns f s = some (p, .op .colon :: r)) : PlainGood t s := by
+  refine ⟨⟨fun hl => absurd hl (ne_lambda_of_tk h (by simp)), ?_, ?_, fun _ => ⟨f, p, r, Or.inr hd⟩, ?_,
+    fun ha => absurd ha (ne_at_of_tk h (by simp))⟩, isNL_false_of_tk h (by simp) (by simp) (by simp)⟩ <;> (rw [h]; simp)
+grind_pattern plainGood_case_colon => PlainGood t s, tk t, parsePatterns f s, some (p, Tok.op Op.colon :: r)
 
 theorem plainGood_return_some {t : Tok} {s : List Tok} {f v} (h : tk t = .hk .return) (hd : parseTestListS f s = some v) :
     PlainGood t s := by
